@@ -656,6 +656,7 @@ func checkC17(job *Job, res *Result) {
 		c17DefaultJSON(job, res)
 		c17Sequences(job, res)
 		c17Live(job, res)
+		c17Tiles(job, res)
 	}
 }
 
@@ -925,6 +926,67 @@ func c17Live(job *Job, res *Result) {
 		if x.Err != "" {
 			res.Violate("C17/hang:live", x.Err+" ["+tr+"]", nil)
 		}
+	}
+}
+
+// c17Tiles: a vector tile is the same bytes over RESP (INTERSECTS key MVT x y z),
+// inside the JSON document (member "mvt", unpadded base64) and as the body of
+// HTTP GET /key/z/x/y.mvt - for tiles of every length modulo 3.
+func c17Tiles(job *Job, res *Result) {
+	x := runExec(job, freezeAllBut(), func(x *Exec) {
+		in := x.Start("L", x.dir+"/L", 9001, nil)
+		c := x.Dial(in.Addr)
+		cj := x.Dial(in.Addr)
+		cj.Do("OUTPUT", "json")
+		seenMod := map[int]bool{}
+		for n := 0; n <= 7; n++ {
+			if n > 0 {
+				c.Do("SET", "tk", fmt.Sprintf("obj%s", strings.Repeat("x", n)), "POINT", fmt.Sprint(10+n), fmt.Sprint(20+n))
+			}
+			r := c.Do("INTERSECTS", "tk", "LIMIT", "100000000", "MVT", "0", "0", "0")
+			if r.K != '*' || len(r.A) != 2 {
+				if n == 0 {
+					continue // no collection yet
+				}
+				res.Violate("C17/tile:resp", fmt.Sprintf("INTERSECTS tk MVT 0 0 0 with %d objects replied %s", n, vclip(r.String(), 120)), nil)
+				continue
+			}
+			tile := r.A[1].S
+			seenMod[len(tile)%3] = true
+			res.Evaluations++
+			res.DistinctS(fmt.Sprint("tile", n, len(tile)%3))
+			j := cj.Do("INTERSECTS", "tk", "LIMIT", "100000000", "MVT", "0", "0", "0")
+			var doc struct {
+				OK  bool   `json:"ok"`
+				MVT string `json:"mvt"`
+			}
+			if j.K != '$' || json.Unmarshal([]byte(j.S), &doc) != nil || !doc.OK {
+				res.Violate("C17/tile:json", fmt.Sprintf("JSON mode, %d objects: %s", n, vclip(j.String(), 160)), nil)
+			} else if dec, err := base64.RawStdEncoding.DecodeString(doc.MVT); err != nil && func() bool { d2, e2 := base64.StdEncoding.DecodeString(doc.MVT); dec = d2; return e2 != nil }() {
+				res.Violate("C17/tile:json", fmt.Sprintf("member mvt is not base64: %s", vclip(doc.MVT, 80)), nil)
+			} else if string(dec) != tile {
+				res.Violate("C17/tile:json", fmt.Sprintf("%d objects: the tile inside the JSON document (%d bytes) differs from the RESP tile (%d bytes)", n, len(dec), len(tile)), nil)
+			}
+			hc := x.Dial(in.Addr)
+			hc.Send([]byte("GET /tk/0/0/0.mvt HTTP/1.1\r\nHost: x\r\n\r\n"))
+			vsched.WaitUntilOr(func() bool { return hc.c.EOF() }, int64(5*stdtime.Second))
+			vsched.Quiesce()
+			hb := string(hc.c.Drain())
+			hc.Close()
+			i := strings.Index(hb, "\r\n\r\n")
+			if i < 0 || !strings.HasPrefix(hb, "HTTP/1.1 200 ") || !strings.Contains(hb[:i], "application/vnd.mapbox-vector-tile") {
+				res.Violate("C17/tile:http", fmt.Sprintf("GET /tk/0/0/0.mvt with %d objects (tile of %d bytes) answered %s", n, len(tile), vclip(hb, 200)), map[string]any{"objects": n})
+			} else if body := strings.TrimSuffix(hb[i+4:], "\r\n"); body != tile {
+				res.Violate("C17/tile:http", fmt.Sprintf("%d objects: the HTTP body (%d bytes) differs from the RESP tile (%d bytes)", n, len(body), len(tile)), map[string]any{"objects": n})
+			}
+		}
+		if len(seenMod) < 3 {
+			res.Assumptions = append(res.Assumptions, fmt.Sprintf("tile lengths modulo 3 covered: %v", seenMod))
+		}
+		res.States++
+	})
+	if x.Err != "" {
+		res.Violate("C17/hang:tiles", x.Err, nil)
 	}
 }
 
